@@ -252,7 +252,7 @@ module.exports = {
   requests,
   check,
   inflight: 8,
-  rule: 'leaf = program of families A,B,C,G (static scope analysis of every reserved-prefix identifier), D (39 scope / re-entrancy shapes x identity or re-entering hooks, executed), E (35 placements of a reserved-prefix identifier x 8 names x 3 operations); non-trivial = content mentions at least one temporary (A-D) / always (E); distinct by program text',
+  rule: 'leaf = program of families A,B,C,G (static scope analysis of every reserved-prefix identifier), D (39 scope / re-entrancy shapes x identity or re-entering hooks, executed), E (35 placements of a reserved-prefix identifier x 8 names x 3 operations), E2 (5 identifier-safe non-ASCII / odd prefixes x 8 spellings near the reserved name x 2 indices x the same placements), families M,S,T,H,Q,R,N,L,K as for A; non-trivial = content mentions at least one temporary (A-D) / always (E); distinct by program text',
   explanation: 'explicit enumeration; static oracle resolves every temporary occurrence to an injected let without crossing an activation boundary and checks liveness (no nested reassignment); dynamic oracle = differential execution of recursion / generator / async / closure / hook re-entry histories; family E must be refused or behave identically',
   assumptions: ['hook re-entry is modelled by hooks that call main again with a fresh environment and discard the result', 'values limited to G7']
 }
